@@ -7,6 +7,7 @@ import (
 	"os"
 	"strconv"
 	"strings"
+	"sync/atomic"
 	"syscall"
 	"time"
 )
@@ -390,4 +391,49 @@ func Main(e *Env, r *Report, f func()) {
 	f()
 	r.Write(e)
 	CleanScratch()
+}
+
+// Progress is a heartbeat a harness updates before every case; a Watchdog
+// turns a case that does not finish into a reported hang of exactly that case.
+type Progress struct {
+	n   atomic.Int64
+	cur atomic.Pointer[[2]string]
+}
+
+// Set records the case about to run.
+func (p *Progress) Set(family, input string) {
+	p.cur.Store(&[2]string{family, input})
+	p.n.Add(1)
+}
+
+// StartWatchdog reports a hang when the heartbeat does not move for limit
+// (the cases watched take microseconds; limit is tens of seconds). The hang is
+// recorded as a failure of the current case, the report is written and the
+// worker exits: the stuck goroutine cannot be stopped.
+func StartWatchdog(e *Env, r *Report, p *Progress, limit time.Duration, kind string) {
+	go func() {
+		last, since := int64(-1), time.Now()
+		for {
+			time.Sleep(time.Second)
+			n := p.n.Load()
+			if n != last {
+				last, since = n, time.Now()
+				continue
+			}
+			if n == 0 || time.Since(since) < limit {
+				continue
+			}
+			c := p.cur.Load()
+			if c == nil {
+				continue
+			}
+			r.AddFailure(&Failure{Kind: kind, Detail: fmt.Sprintf("[%s] input %q did not finish within %s (the same step normally takes microseconds)", c[0], c[1], limit), Trace: []string{c[0], c[1]}, Params: c[0]})
+			r.Exhaustive = false
+			r.Notes = append(r.Notes, "a hang ended this worker early; the rest of its share was not explored")
+			r.Write(e)
+			Say("HANG check=%s shard=%d: %q", e.Check, e.Shard, c[1])
+			CleanScratch()
+			os.Exit(0)
+		}
+	}()
 }
